@@ -153,6 +153,7 @@ class TaintInterp:
         self.facts = facts
         self.returns = []  # (function, arm label, T, lineno)
         self.notes = []
+        self._depth = 0
 
     # -- expression evaluation ------------------------------------------------
     def ev(self, node, env):
@@ -435,7 +436,48 @@ class TaintInterp:
             return Obj("token")
         if short == "lambda_wrap":
             return Obj("lam")
+        # a helper defined in the same module: evaluate its returns with the
+        # arguments bound (bounded depth) - "extract function" refactorings
+        if isinstance(node.func, ast.Name) and node.func.id in \
+                self.mod.functions and self._depth < 3:
+            return self.inline(self.mod.functions[node.func.id], node, env)
         return Unknown(ast.unparse(node), line)
+
+    def inline(self, callee, call, env):
+        """Abstractly call a module-local helper: union of its returns."""
+        params = [a.arg for a in callee.args.args]
+        cenv = {}
+        if "$kind" in env:
+            cenv["$kind"] = env["$kind"]
+        for i, a in enumerate(call.args):
+            if i < len(params):
+                cenv[params[i]] = self.ev(a, env)
+        for kw in call.keywords:
+            if kw.arg in params:
+                cenv[kw.arg] = self.ev(kw.value, env)
+        # defaults
+        defaults = callee.args.defaults
+        for p, d in zip(params[len(params) - len(defaults):], defaults):
+            if p not in cenv:
+                cenv[p] = self.ev(d, {})
+        saved_returns, saved_fn = self.returns, getattr(self, "fn", None)
+        self.returns = []
+        self._depth += 1
+        try:
+            self.fn = callee
+            self.block(callee.body, cenv, label=f"helper {callee.name}")
+            got = self.returns
+        finally:
+            self._depth -= 1
+            self.returns = saved_returns
+            self.fn = saved_fn
+        out = None
+        kinds = set()
+        for _, _, tpl, _ in got:
+            out = tpl if out is None else out.union(tpl)
+        if out is None:
+            return Unknown(ast.unparse(call), call.lineno)
+        return out
 
     # -- statements --------------------------------------------------------------
     def run_function(self, fn: ast.FunctionDef, param_objs: dict):
